@@ -895,6 +895,10 @@ pub fn fold_case((syms, b, ops): &(Vec<usize>, usize, Vec<(usize, usize, usize)>
 }
 
 fn main() {
+    kvh::on_thread(real_main);
+}
+
+fn real_main() {
     let args = kvh::parse_args("C13", "c13");
     let c13 = args.prop != "C14";
     let mut ctx = Ctx::new(args.clone(), if c13 { RULE13 } else { RULE14 });
